@@ -1,6 +1,7 @@
 \* thorough: C28 over the full product of the value classes of every record type (with and without trailing
-\* bytes); C27 over all single corruptions with all 8 bits of every byte flipped, with trailing bytes present,
-\* plus double corruptions (every overwrite followed by a truncation at every later field boundary).
+\* bytes); C27 over all single corruptions of every class vector with at most one field off base, with and without
+\* trailing bytes, bits 0 and 7 of every byte flipped (all 8 bits for the base vector), plus double corruptions of the
+\* base vector (every overwrite followed by a truncation at every later field boundary).
 SPECIFICATION Spec
 CONSTANTS
   Variant = "intended"
